@@ -16,6 +16,8 @@ CONSTANTS
     ParSet,      \* set of [cool, disc, grace, tries, P, L, D]
     FeedInit,    \* set of initial feed lists  (functions Sig -> [iv, dev])
     FeedChanges, \* feed lists SetFeeds may install ({} = the list never changes)
+    MaxH,        \* fault facets: bound on the height (blocks are not tied to the clock there),
+    MaxSub, MaxMem, \*   on the number of submissions and on the mempool length
     Quotes       \* signal -> set of [st, price] the price service may quote for it
 
 VARIABLE stg
@@ -73,10 +75,10 @@ LiveSpec == MCInit /\ [][LiveNext]_mvars
 FaultNext ==
     /\ stg' = stg
     /\ \/ clk < MaxT /\ \E q \in SvcChoices : TickWith(1, q)
-       \/ Poll
-       \/ \E r \in subs, res \in {"ok", "err", "chk"} : Bcast(r.id, res)
+       \/ nsub < MaxSub /\ Poll
+       \/ \E r \in subs, res \in {"ok", "err", "chk"} : (res = "ok" => Len(mempool) < MaxMem) /\ Bcast(r.id, res)
        \/ \E r \in subs, res \in {"found", "timeout"} : TxResult(r.id, res)
-       \/ \E d \in 0..par.D, k \in SlotChoices \cup {0} : Block(d, k)
+       \/ h < MaxH /\ \E d \in 0..par.D, k \in SlotChoices \cup {0} : Block(d, k)
        \/ \E nf \in FeedChanges : nf # feeds /\ SetFeeds(nf)
 
 FaultSpec == MCInit /\ [][FaultNext]_mvars
@@ -123,4 +125,27 @@ Quotes1 == [s \in Sig |-> {[st |-> "avail", price |-> 10000], [st |-> "avail", p
                            [st |-> "avail", price |-> 10050], [st |-> "unavail", price |-> 0]}]
 QuotesLean == [s \in Sig |-> IF s = "s1" THEN {[st |-> "avail", price |-> 10000], [st |-> "avail", price |-> 10050]}
                                         ELSE {[st |-> "avail", price |-> 10000], [st |-> "unavail", price |-> 0]}]
+ParFault == {[cool |-> 2, disc |-> 3, grace |-> 3, tries |-> 2, P |-> 1, L |-> 1, D |-> 1]}
+FeedInitF == {[s \in Sig |-> [iv |-> 6, dev |-> 50]]}
+FeedChangesF == {[s \in Sig |-> [iv |-> 6, dev |-> 50]], [s \in Sig |-> IF s = "s1" THEN [iv |-> 6, dev |-> 50] ELSE [iv |-> 0, dev |-> 0]]}
+QuotesF == [s \in Sig |-> IF s = "s1" THEN {[st |-> "avail", price |-> 10000]}
+                                     ELSE {[st |-> "avail", price |-> 10000], [st |-> "missing", price |-> 0]}]
+\* feed-list change facet: the interval of s1 moves between 20 and 30, s2 joins and leaves
+FeedInitC == {[s \in Sig |-> IF s = "s1" THEN [iv |-> 20, dev |-> 50] ELSE [iv |-> 0, dev |-> 0]]}
+FeedChangesC == {[s \in Sig |-> IF s = "s1" THEN [iv |-> 20, dev |-> 50] ELSE [iv |-> 0, dev |-> 0]],
+                 [s \in Sig |-> IF s = "s1" THEN [iv |-> 30, dev |-> 50] ELSE [iv |-> 0, dev |-> 0]],
+                 [s \in Sig |-> [iv |-> 20, dev |-> 50]]}
+QuotesC == [s \in Sig |-> IF s = "s1" THEN {[st |-> "avail", price |-> 10000], [st |-> "avail", price |-> 10050]}
+                                     ELSE {[st |-> "avail", price |-> 10000]}]
+\* half scale: I = 30, cool 15, buffer 2, unavailable offset 5, grace 15, P in {1, 2}, L = 1, D = 1
+ParSet30 == {[cool |-> 15, disc |-> 30, grace |-> 15, tries |-> 1, P |-> p, L |-> 1, D |-> 1] : p \in {1, 2}}
+FeedInit30 == {[s \in Sig |-> [iv |-> 30, dev |-> 50]]}
+\* real scale: I = 60, cool 30, buffer 3, unavailable offset 10, grace 30, P = 2, L = 3, D = 3
+ParSet60 == {[cool |-> 30, disc |-> 60, grace |-> 30, tries |-> 1, P |-> 2, L |-> 3, D |-> 3]}
+FeedInit60 == {[s \in Sig |-> [iv |-> 60, dev |-> 50]]}
+Quotes60 == [s \in Sig |-> {[st |-> "avail", price |-> 10000], [st |-> "avail", price |-> 10050], [st |-> "unavail", price |-> 0]}]
+ParFault2 == {[cool |-> 2, disc |-> 3, grace |-> 3, tries |-> 3, P |-> 1, L |-> 1, D |-> 1]}
+ParSet20D0 == {[cool |-> 10, disc |-> 20, grace |-> 10, tries |-> 1, P |-> 1, L |-> 1, D |-> 0]}
+QuotesQ == [s \in Sig |-> IF s = "s1" THEN {[st |-> "avail", price |-> 10000], [st |-> "avail", price |-> 10050]}
+                                     ELSE {[st |-> "avail", price |-> 10000]}]
 =============================================================================
